@@ -248,7 +248,12 @@ def check_c16(tier, seed):
             prior_names += ["older-partial", "older-readonly-mode", "skill-dir-has-extra"]
         # custom paths also include ones that merely *look* like an installation (last element named like the skill
         # directory, or like an agent's own sub-path): the skill directory is still created below them
-        modes = ["default", "user", "path-rel", "path-abs", "path-user", "path-rel-user", "path-rel-dotdot",
+        # the documented locations depend on $HOME and the working directory only: environment variables that other
+        # tools honour for configuration directories (XDG_*, APPDATA, ...) must not redirect the installation
+        foreign_env = {"XDG_CONFIG_HOME": os.path.join(sb.other, "xdg", "config"), "XDG_DATA_HOME": os.path.join(sb.other, "xdg", "data"),
+                       "XDG_CACHE_HOME": os.path.join(sb.other, "xdg", "cache"), "APPDATA": os.path.join(sb.other, "appdata"),
+                       "KESSOKU_HOME": os.path.join(sb.other, "kh"), "CLAUDE_CONFIG_DIR": os.path.join(sb.other, "ccd"), "CODEX_HOME": os.path.join(sb.other, "cxh")}
+        modes = ["default", "user", "user-foreign-env", "default-foreign-env", "path-rel", "path-abs", "path-user", "path-rel-user", "path-rel-dotdot",
                  "path-rel-named-like-skill", "path-abs-named-like-skill-user", "path-rel-named-like-subpath"]
         for agent in sorted(documented):
             proj, user = documented[agent]
@@ -256,9 +261,10 @@ def check_c16(tier, seed):
                 for pn in prior_names:
                     sb.reset()
                     args = [agent]
-                    if mode == "default":
+                    envx = foreign_env if mode.endswith("-foreign-env") else None
+                    if mode in ("default", "default-foreign-env"):
                         base = os.path.join(sb.cwd, proj)
-                    elif mode == "user":
+                    elif mode in ("user", "user-foreign-env"):
                         base = os.path.join(sb.home, user); args.append("--user")
                     elif mode == "path-rel":
                         base = os.path.join(sb.cwd, "custom", "dir"); args += ["--path", "custom/dir"]
@@ -299,7 +305,7 @@ def check_c16(tier, seed):
                         F.lay_down(skill, priors_all[pn])
                     roots = (sb.home, sb.cwd, sb.other, sib)
                     before = {d: F.snapshot(d) for d in roots}
-                    rc, out, err = F.run_cli(cli, sb, args); runs += 1
+                    rc, out, err = F.run_cli(cli, sb, args, envx); runs += 1
                     after = {d: F.snapshot(d) for d in roots}
                     desc = {"agent": agent, "mode": mode, "args": args[1:], "prior": pn}
                     def viol(text, **kw):
@@ -355,6 +361,6 @@ def check_c16(tier, seed):
         sb.close()
     R.samples = samples
     R.coverage.update({"evaluations": runs, "distinct_nontrivial": runs - 1, "exhaustive": True, "traces_validated_against_impl": runs,
-                       "rule": "all documented agents x {default, --user, --path relative, --path absolute, --path absolute with --user, --path relative with --user, --path ../relative, --path whose last element is the skill directory's name (relative / absolute with --user), --path ending in the agent's own sub-path} x prior states %s, each with bystander files in $HOME, cwd and an unrelated directory; before/after snapshots of all three; every combination is distinct" % prior_names})
+                       "rule": "all documented agents x {default, --user, both again with XDG_* / APPDATA / tool-specific home variables pointing elsewhere, --path relative, --path absolute, --path absolute with --user, --path relative with --user, --path ../relative, --path whose last element is the skill directory's name (relative / absolute with --user), --path ending in the agent's own sub-path} x prior states %s, each with bystander files in $HOME, cwd and an unrelated directory; before/after snapshots of all three; every combination is distinct" % prior_names})
     R.assumptions = ["the README table is the documentation the property refers to", "kong dispatches a sub-command to the AgentCmd of the same field (validated by running every sub-command)"]
     return R.finish("cd lean && lake build KV.Props.C16 && lake env lean <audit of Props/C16 theorems>", TRUSTED)
